@@ -245,7 +245,7 @@ pub fn def(tier: Tier) -> CheckDef {
         level: "exploration",
         rule: "type-directed generated programs (plain, annotation-erased, and perturbed by one type-breaking mutation or variable swap - the accepted ones count) over result types int, bool, type, non-dependent and dependent function types, types produced by type-level functions and conditionals, and types mentioning definition groups; each accepted program is run with gram's `step` loop and the value v and the reported type T are compared: by shape (int => literal, bool => true/false, function type => function with the same implicit flag, type => a type former) and by the independent checker (R-core infers a type for v, which must be convertible with T); plus (exhaustive) an identity function annotated `(b : bool) -> (x : int) -> T1 -> T2` for every pair of small type expressions T1, T2 and applied at constants: conversion between computed types put to use; non-trivial = T is not a bare base type, or evaluation took >= 5 steps; distinct by text",
         assumptions: vec!["values or types that still contain unresolved holes are outside the explicit checker's domain (counted, not judged)"],
-        idle_limit_s: 180,
+        idle_limit_s: 60,
         needs_cli: false,
         fuzz: None,
         parts: vec![
